@@ -286,9 +286,7 @@ func c15Gen() *rapid.Generator[c15Case] {
 		fp := forestParams{maxNodes: 14, maxDepth: 8, names: names, oneRoot: op == "toml"}
 		f := genForest(fp).Draw(t, "forest")
 		if (op == "mkdir" || op == "verify") && hasDupRoots(f) {
-			for i, r := range f {
-				r.Name = fmt.Sprintf("%s%d", r.Name, i)
-			}
+			uniqRoots(f)
 		}
 		c := c15Case{Forest: f, Op: op}
 		c.Sp1 = genSpelling(f.HeadingOK()).Draw(t, "sp1")
